@@ -45,6 +45,7 @@ def gen_cases(tier, seed):
             cases.append({'shape': 'corpus', 'file': f, 'src_b64': base64.b64encode(common.read_text(f)).decode(), 'opts': o})
     for i, c in enumerate(cases):
         c['prop'] = PROP
+        c.setdefault('timeout', 150 if c.get('shape') in ('modgen', 'corpus') or str(c.get('shape')).startswith('exhaustion') else 40)
         c['want_sample'] = i % 700 == 0
     return cases
 
